@@ -425,6 +425,19 @@ def r04_5(ctx: Ctx) -> None:
     uw_emits = any(isinstance(n, ast.Attribute) and n.attr == "crc" and isinstance(n.ctx, ast.Load) for n in walk(uw.node)) and \
         any(isinstance(n, ast.Attribute) and n.attr == "CRC" for n in walk(uw.node))
     folder_path = bool(sets_folder_crc) and uw_emits and bool(sets_defined)
+    # when the emission depends on a parameter of UnpackInfo.write, the header descriptor writer must switch it on
+    gate_params = set()
+    for n in walk(uw.node):
+        if isinstance(n, ast.Call) and attr_tail(n) == "write_byte" and len(n.args) > 1 and norm(n.args[1]) == "PROPERTY.CRC":
+            for cd, pol in q.facts_at(uw, n):
+                for x in ast.walk(cd):
+                    if isinstance(x, ast.Name) and x.id in uw.params and pol:
+                        gate_params.add(x.id)
+    if folder_path and gate_params:
+        hw = ctx.prog.func("archiveinfo", "HeaderStreamsInfo.write")
+        calls = [c for c in q.calls(hw) if norm(c.func).endswith("unpackinfo.write")]
+        on = bool(calls) and all(any(k.arg in gate_params and isinstance(k.value, ast.Constant) and k.value.value is True for k in c.keywords) for c in calls)
+        folder_path = on
     # pack-stream digest path: crcs set, digestdefined set, enable_digests not forced False
     sets_crcs = [n for n in walk(f.node) if isinstance(n, ast.Assign) and any(isinstance(t, ast.Attribute) and t.attr == "crcs" for t in n.targets)]
     pk_defined = [n for n in walk(f.node) if isinstance(n, ast.Assign) and any(isinstance(t, ast.Attribute) and t.attr == "digestdefined"
